@@ -604,9 +604,19 @@ void open_handles(world& w, const std::vector<int64_t>& cids, const std::vector<
 
 void do_reopen(world& w, json& rec)
 {
+    // (C16: neither releasing the last handle nor loading again may change what is stored - the digest of all tables of all
+    //  attached databases, which includes any table that appears or disappears, and the bytes of the files)
+    std::string d0 = vh::raw_reader{w.conn}.digest();
+    std::string f0 = w.mode == "disk" ? file_digest(w) : std::string();
     std::vector<int64_t> cids, tids;
     close_handles(w, cids, tids);
     open_handles(w, cids, tids, rec);
+    if (!w.dead)
+    {
+        rec["csame"] = vh::raw_reader{w.conn}.digest() == d0;
+        if (w.mode == "disk")
+            rec["cfiles"] = file_digest(w) == f0;
+    }
 }
 
 void exec_op(world& w, const json& op)
